@@ -209,7 +209,8 @@ CHECKS = {
     "C09": dict(
         text=("Coq proof over the regenerated pandas membership predicates: for every abstract series they return a boolean and never raise; Generic contains everything. Totality of detect / "
               "infer / cast through the inference relations (third-party parsers) is decided on the implementation over all streams incl. adversarial strings and every dtype x value-kind "
-              "combination, on pandas, numpy and list inputs; five genuine crashes were repaired."),
+              "combination, on pandas, numpy and list inputs (incl. pure Python lists of numpy scalars, huge ints, extreme floats); five genuine crashes were repaired. "
+              "Python lists: Generic contains every list (regenerated Sequence contains_ops)."),
         ref="DESIGN.md section 3 (C09)",
         note=TB_COMMON + "Exceptions raised inside pandas/shapely/urllib for reasons outside the model are only reachable dynamically. Known findings F09c, F09list, F09np.",
         technique="Coq proof (totality of translated predicates by case analysis) + crash oracle over adversarial streams",
